@@ -503,7 +503,7 @@ Section Hier.
     match g_cache st with Some c => c | None => M_blocks (g_tree st) end.
 
   (* ---- well-formedness (what every constructor establishes) *)
-  Fixpoint uniform (h : nat) (t : level) : bool :=
+  Fixpoint uniform (h : nat) (t : level) {struct t} : bool :=
     match t with
     | Leaf _ ls => Nat.eqb h 0 && negb (Nat.eqb (length ls) 0)
     | Node _ ls ks =>
